@@ -301,6 +301,12 @@ impl Direct {
             parts.insert("pub:rrdp".into(), format!(
                 "{}:{}", v["session"], v["serial"]
             ));
+            // the publishers as the content side knows them
+            let mut names: Vec<String> = stats.publishers.keys().map(|p| {
+                p.to_string()
+            }).collect();
+            names.sort();
+            parts.insert("pub:content-publishers".into(), names.join(","));
         }
         parts.insert("pub:dir".into(), hash_str(
             &repo_dir_listing(&self.world.dir)
@@ -896,6 +902,13 @@ impl Http {
         parts.insert("pub:rrdp".into(), format!(
             "{status}:{}", hash_str(&head)
         ));
+        let mut names: Vec<String> = self.get_json("/stats/repo").and_then(
+            |v| v["publishers"].as_object().map(|o| {
+                o.keys().cloned().collect()
+            })
+        ).unwrap_or_default();
+        names.sort();
+        parts.insert("pub:content-publishers".into(), names.join(","));
         parts.insert("pub:dir".into(), hash_str(&repo_dir_listing(&self.dir)));
         Digests::from_parts(parts)
     }
